@@ -71,6 +71,16 @@ func configs() []config {
 	}
 	out = append(out, config{Name: "workers=1,queue=big,failures=connector-gave-up", ConcurrentPins: 1, Queue: bigQueue,
 		Cids: []string{"a", "b"}, Kinds: allKinds, Passes: rc, FailCanceled: true})
+	// one CID, pin/unpin only, longer scripts: the daemon may carry a call out
+	// and answer late, after the operation has been superseded
+	late := []pass{{4, unbounded}}
+	if ev.Thorough() {
+		late = []pass{{6, unbounded}}
+	}
+	for _, cp := range []int{1, 2} {
+		out = append(out, config{Name: fmt.Sprintf("late-answers,1cid,workers=%d,queue=big", cp), ConcurrentPins: cp, Queue: bigQueue,
+			Cids: []string{"a"}, Kinds: []kind{kLR, kUN, kRA}, Passes: late, LateAnswers: true})
+	}
 	out = append(out, config{Name: "real-connector,workers=1,queue=big", ConcurrentPins: 1, Queue: bigQueue,
 		Cids: []string{"a", "b"}, Kinds: allKinds, Passes: rc, RealConn: true})
 	return out
